@@ -132,11 +132,31 @@ fn check_table_t(ctx: &mut Ctx, table: usize, prefix: &str, regs: &[(usize, usiz
                 continue;
             }
             ctx.rep.evaluations += 1;
-            let raw = format!("{} {} HTTP/1.1\r\n\r\n", method.to_str(), uri);
+            // the request's headers and body are none of the router's business: a function of (method, uri) picks one
+            const EXTRAS: [&str; 8] = [
+                "",
+                "Transfer-Encoding: chunked\r\n",
+                "Expect: 100-continue\r\n",
+                "Accept: text/plain\r\nX-Custom: 1\r\n",
+                "Connection: close\r\n",
+                "Content-Type: text/plain\r\nTransfer-Encoding: chunked\r\nExpect: 100-continue\r\n",
+                "Accept-Encoding: gzip, identity\r\n",
+                "Server: someone-else\r\n",
+            ];
+            let extra = EXTRAS[(Fp::new().s(uri).u(mi as u64).0 % EXTRAS.len() as u64) as usize];
+            let version = if uri.len() % 2 == 0 { "1.1" } else { "1.0" };
+            let raw = if mi > 0 && uri.len() % 3 == 0 {
+                format!("{} {} HTTP/{}\r\n{}Content-Length: 2\r\n\r\nhi", method.to_str(), uri, version, extra)
+            } else {
+                format!("{} {} HTTP/{}\r\n{}\r\n", method.to_str(), uri, version, extra)
+            };
             let req = match Request::try_from(raw.as_bytes(), None) {
                 Ok(r) => r,
                 Err(_) => continue,
             };
+            if !extra.is_empty() {
+                ctx.rep.count("dispatches_of_requests_with_headers");
+            }
             log.lock().unwrap().clear();
             let resp = match guarded(|| router.handle_http_request(&req, &log)) {
                 Ok(r) => r,
